@@ -489,6 +489,15 @@ theorem c10_src_parse_any_aug_api {X Y : Type} {D : AugDec X Y} {p : Bool} {n : 
   | none => rw [hq] at h1; exact h1.elim
   | dict r => rw [hq] at h1; simp only at h1; subst h1; rfl
 
+/-- `Slice.load_hashmap_aug_e(n, x, y)` as regenerated from slice.py, on an ordinary slice (for a special slice its first statement
+returns the cell itself), IS the hand model's `loadHashmapAugE` — the function `c10_parse_any_aug_api` and `c10_aug_e_extra_required`
+are about: `0 extra` gives `({}, [extra])`, `1 ^root extra` gives the parse of the root after the top-level extra was read. -/
+theorem c10_src_load_hashmap_aug_e {X Y : Type} (D : AugDec X Y) (fuel : Nat) (bits : Bits) (refs : List Cell) (n : Nat)
+    (hf : 2 * n + 2 ≤ fuel) :
+    (HashmapGlue.load_hashmap_aug_e (xdOf D) (ydOf D) fuel ⟨-1, bits, refs⟩ (n : Int)).map (·.1) =
+      outAugE (loadHashmapAugE D (-1) bits refs n) :=
+  load_hashmap_aug_e_eq D fuel bits refs n hf
+
 end SrcAugApi
 
 end TonVerif.Properties.C10
